@@ -19,6 +19,8 @@ let show_tok = function
 let nums s = if s = "-" then [] else List.map n_of_decimal (String.split_on_char ',' s)
 let () =
   let lines = read_lines Sys.argv.(1) in
+  (* the correspondence uses the model of /repo HEAD only; "defective" (the code before 7065ffb / 890d5a0) remains
+     selectable by hand for the historical witnesses *)
   let variant = if Array.length Sys.argv > 3 && Sys.argv.(3) = "defective" then Defective else Repaired in
   let buf = Buffer.create 65536 in
   List.iter (fun line ->
